@@ -414,6 +414,14 @@ func (m *SQLModel) collectRaw(p *core.Program) {
 						return true
 					}
 				}
+				// the statement is executed by a helper that is handed the query text by several
+				// callers (p.execRaw(ctx, q, args)): one statement per caller, built where the caller
+				// built it
+				if id, ok := c.Args[0].(*ast.Ident); ok {
+					if m.rawThroughExecHelper(p, fd, c, id, builders) {
+						return true
+					}
+				}
 				// query produced by a builder function: q, args, err := buildX(...)
 				if id, ok := c.Args[0].(*ast.Ident); ok {
 					if bcall, bdecl := definingBuilderCall(m.Pkg, fd, id); bcall != nil {
@@ -665,6 +673,112 @@ func (m *SQLModel) rawThroughBuilderParam(p *core.Program, fd *ast.FuncDecl, sit
 				return true
 			})
 		}
+	}
+	return found
+}
+
+// rawThroughExecHelper: the query text id of the RawQuery call is a string parameter of fd and fd
+// is called from more than one place in the package. For each caller whose argument is the result
+// of a builder function (q, args, err := buildX(...)) a RawStmt owned by the caller is recorded.
+func (m *SQLModel) rawThroughExecHelper(p *core.Program, fd *ast.FuncDecl, site *ast.CallExpr, id *ast.Ident, builders map[string]*RawStmt) bool {
+	info := m.Pkg.TypesInfo
+	pobj := info.Uses[id]
+	pidx, i := -1, 0
+	for _, fl := range fd.Type.Params.List {
+		for _, nm := range fl.Names {
+			if info.Defs[nm] == pobj && pobj != nil {
+				pidx = i
+			}
+			i++
+		}
+	}
+	if pidx < 0 {
+		return false
+	}
+	fobj := info.Defs[fd.Name]
+	type callerSite struct {
+		decl *ast.FuncDecl
+		call *ast.CallExpr
+	}
+	var sites []callerSite
+	for _, f := range m.Pkg.Syntax {
+		if p.IsTestFile(f.Pos()) {
+			continue
+		}
+		for _, d := range f.Decls {
+			cfd, ok := d.(*ast.FuncDecl)
+			if !ok || cfd.Body == nil || cfd == fd {
+				continue
+			}
+			ast.Inspect(cfd.Body, func(n ast.Node) bool {
+				c, ok := n.(*ast.CallExpr)
+				if !ok || pidx >= len(c.Args) {
+					return true
+				}
+				var cid *ast.Ident
+				switch f := c.Fun.(type) {
+				case *ast.Ident:
+					cid = f
+				case *ast.SelectorExpr:
+					cid = f.Sel
+				}
+				if cid != nil && fobj != nil && info.Uses[cid] == fobj {
+					sites = append(sites, callerSite{cfd, c})
+				}
+				return true
+			})
+		}
+	}
+	if len(sites) < 2 {
+		return false // a single caller is handled by EvalCallSite
+	}
+	found := false
+	for _, cs := range sites {
+		qid, ok := cs.call.Args[pidx].(*ast.Ident)
+		if !ok {
+			continue
+		}
+		bcall, bdecl := definingBuilderCall(m.Pkg, cs.decl, qid)
+		if bcall == nil {
+			continue
+		}
+		found = true
+		name := bdecl.Name.Name
+		bc := BuilderCall{Fn: core.DeclName(cs.decl), Pos: bcall.Pos(), Args: map[string]ast.Expr{}, Decl: cs.decl}
+		k := 0
+		for _, fl := range bdecl.Type.Params.List {
+			for _, nm := range fl.Names {
+				if k < len(bcall.Args) {
+					bc.Args[nm.Name] = bcall.Args[k]
+				}
+				k++
+			}
+		}
+		if prev, ok := builders[name]; ok {
+			prev.BuilderCalls = append(prev.BuilderCalls, bc)
+			continue
+		}
+		rs := &RawStmt{Fn: core.DeclName(cs.decl), Helper: core.DeclName(fd), Site: cs.call.Pos(), Builder: name}
+		rs.BuilderCalls = append(rs.BuilderCalls, bc)
+		ts, errs := core.EvalBuilder(m.Pkg, bdecl)
+		rs.Errs = append(rs.Errs, errs...)
+		if len(ts) == 0 {
+			rs.Errs = append(rs.Errs, "builder "+name+" yields no template")
+		}
+		for _, t := range ts {
+			ss, err := t.Samples()
+			if err != nil {
+				rs.Errs = append(rs.Errs, err.Error())
+			}
+			for i := range ss {
+				if t.Variant != "" {
+					ss[i].Desc += " [" + t.Variant + "]"
+				}
+			}
+			rs.Samples = append(rs.Samples, ss...)
+		}
+		builders[name] = rs
+		m.Raw = append(m.Raw, rs)
 	}
 	return found
 }
